@@ -15,6 +15,8 @@ PROGRAMS = [
     'def f(a, b=2):\n    """doc \u4e2d\u6587"""\n    return a + b\nprint(f(1))\n',
     's = "tab\\there" "\\u2028" \'\\N{BULLET}\'\nt = r"raw\\n"\n',
     'class A:\n    x = "\u00ff\u00fe"\n    def m(self):\n        return "\U0001f600"\n',
+    # modules whose body is empty or becomes empty: the first-line rule does not depend on there being a program
+    '', '# only a comment\n', '\n\n', '# -*- coding: utf-8 -*-\n# second comment\n',
 ]
 SHEBANGS = [None, '#!/usr/bin/env python', '#!/bin/sh -x', '#! /usr/bin/python3 -u', '#!', '#!/opt/\u00e9t\u00e9/python', '#!x#!y',
             # characters that str.splitlines() treats as line boundaries but the tokenizer does not; tabs; a cookie-shaped comment on the shebang line
@@ -63,12 +65,12 @@ def oracle(res, tier, r):
                 ref = astcmp.dump(ast.parse(src))
             except (SyntaxError, ValueError):
                 continue
-            for preserve in (True, False):
+            for preserve, extra in [(True, {}), (False, {})] + ([(True, {'remove_literal_statements': True})] if len(prog) < 50 else []):
                 n += 1
                 hist['%s/%s/%s/%s' % (kind, enc, repr(nl), 'shebang' if sb else 'none')] += 1
-                sig_base = {'program': prog, 'shebang': sb, 'newline': nl, 'encoding': enc, 'cookie': cookie, 'kind': kind, 'preserve_shebang': preserve}
+                sig_base = {'program': prog, 'shebang': sb, 'newline': nl, 'encoding': enc, 'cookie': cookie, 'kind': kind, 'preserve_shebang': preserve, 'options': extra}
                 try:
-                    out = python_minifier.minify(src, preserve_shebang=preserve, rename_locals=False, hoist_literals=False)
+                    out = python_minifier.minify(src, preserve_shebang=preserve, rename_locals=False, hoist_literals=False, **extra)
                 except Exception as e:
                     nonutf = kind == 'bytes' and sb is not None
                     if nonutf:
